@@ -193,6 +193,11 @@ func run() int {
 				if strings.HasPrefix(v, "0x") {
 					bi, _ := new(big.Int).SetString(v[2:], 16)
 					d.Cfg.Pinned[k] = bi
+				} else if strings.HasPrefix(k, "choose!") {
+					n, _ := strconv.ParseInt(v, 10, 64)
+					d.Cfg.Pinned[k] = big.NewInt(n)
+				} else if strings.HasPrefix(k, "param!") {
+					continue
 				} else if strings.HasSuffix(k, "#len") {
 					n, _ := strconv.ParseInt(v, 10, 64)
 					d.Cfg.Pinned[k] = big.NewInt(n)
@@ -200,11 +205,10 @@ func run() int {
 					d.Cfg.PinnedBytes[k] = v
 				}
 			}
-			d.Cfg.PinChoice = replay.Decisions
-			if d.Cfg.PinChoice == nil {
-				d.Cfg.PinChoice = []int64{}
-			}
-			d.Cfg.MaxPaths = 1
+			// inputs and harness choices are pinned; the remaining (engine-internal) forks - stub
+			// outcomes, task orders, cancellation points - are explored exhaustively
+			d.Cfg.MaxPaths = 20000
+			d.Cfg.WallS = 120
 		}
 		runList = append(runList, d)
 	}
